@@ -489,6 +489,36 @@ func PathFrom(fn *ssa.Function, from ssa.Instruction, target, blocker func(ssa.I
 	return nil
 }
 
+// PathFromBlock is PathFrom starting at the first instruction of block b.
+func PathFromBlock(b *ssa.BasicBlock, target, blocker func(ssa.Instruction) bool) ssa.Instruction {
+	seen := map[*ssa.BasicBlock]bool{b: true}
+	work := []*ssa.BasicBlock{b}
+	for len(work) > 0 {
+		c := work[len(work)-1]
+		work = work[:len(work)-1]
+		blocked := false
+		for _, in := range c.Instrs {
+			if target != nil && target(in) {
+				return in
+			}
+			if blocker != nil && blocker(in) {
+				blocked = true
+				break
+			}
+		}
+		if blocked {
+			continue
+		}
+		for _, nx := range c.Succs {
+			if !seen[nx] {
+				seen[nx] = true
+				work = append(work, nx)
+			}
+		}
+	}
+	return nil
+}
+
 // MustPass reports whether every path from the function entry to target
 // executes an instruction satisfying through first.
 func MustPass(fn *ssa.Function, target ssa.Instruction, through func(ssa.Instruction) bool) bool {
